@@ -41,7 +41,7 @@ COMPONENTS = {"real": ["setigen.voltage.backend (from_data, _read_next_block, co
 ASSUMPTIONS = ["from_data builds its own requantiser (ComplexQuantizer defaults: refresh every call, 10000 samples)",
                "a sub-block whose inner (synthetic) quantisation sits within 1e-7 of a rounding boundary is not value-judged",
                "NPOL=4 in an input header denotes two polarisations (GUPPI convention)"]
-PROBES = ["input_path_held_another_recording_of_same_size", "input_by_refguppi", "input_by_setigen", "four_bit", "input_unpadded", "input_aligned_header", "multi_file_input",
+PROBES = ["stream_silent_for_whole_subblocks", "input_path_held_another_recording_of_same_size", "input_by_refguppi", "input_by_setigen", "four_bit", "input_unpadded", "input_aligned_header", "multi_file_input",
           "last_file_partial", "length_longer_than_input", "length_shorter_than_input", "length_unspecified",
           "digitize_on", "unseeded_estimate_framing_only", "retry_after_fault", "array_source", "listing_permuted",
           "second_injection_same_backend", "per_stream_digitiser_targets"]
@@ -62,6 +62,13 @@ def generate(rng, tier):
     if rng.random() < 0.7:
         el["dig"]["tmean"] = 0
     be = W.gen_backend(rng, ant, el)
+    if ant["kind"] == "single" and rng.random() < 0.2:
+        # one stream carries nothing but a pulsed tone: exactly zero for whole sub-blocks at a time
+        sub = max(be["spb"] * el["B"] // max(be["num_subblocks"], 1), el["T"] * el["B"])
+        st = ant["streams"][0][rng.randrange(ant["pols"])]
+        st["noise"], st["tones"] = None, []
+        st["gated"] = {"fs": ant["fs"], "t0": ant["t_start"], "period": sub * rng.choice([1, 1, 2, 3]), "level": rng.choice([1.0, 5.0]),
+                       "f_off": rng.choice([0.013, 0.1, 0.21]) * ant["fs"] / 2}
     source = rng.choice(["ref", "ref", "setigen"])
     n_in = rng.choice([1, 2, 3, 4, 5, 5, 9, 14])
     bpf = rng.choice([1, 2, 2, 3, 4, 8, 16])
@@ -264,6 +271,8 @@ def execute(sc, ctx):
         ctx.hit("four_bit")
     if ant["kind"] == "array":
         ctx.hit("array_source")
+    if any(st.get("gated") for strs in ant["streams"] for st in strs):
+        ctx.hit("stream_silent_for_whole_subblocks")
     in_stem = seams.path("in")
     seams.listing = "sorted"
     if inp["source"] == "ref":
